@@ -18,6 +18,7 @@ func init() {
 		"(R4) the per-certificate step of ParseCertificates is the step of ParseCertificate (same strict/lax sequence on the remaining bytes, same parseCertificate call on the decoded structure, same error merge, same final error gate), each certificate starting where the previous one ended; in both functions the structure the strict parse fills is zero-valued whenever that parse runs (its allocation executed, or it was cleared as a whole, after the last write into it — on every way round the loop: the decoder leaves absent OPTIONAL fields as they are), the lax retry and parseCertificate get it as this certificate's decode left it; whether the loop splits first and converts a list afterwards or decodes, converts and appends in one round, every round that goes on to the next has appended its certificate to the loop-carried result (empty on entry) or has left a loop-carried value non-nil that no later round clears and under which no list is returned, and every list returned is that result after the last round; after a fatal conversion error only returns without an object can execute — at once, or under such a mark while the rest of the input is still split (the error is parseCertificate's, or the lax error of a later certificate, which R2 owns); non-fatal conversion errors reach the collector that is reported, directly or through a second list appended to it before any list of certificates is returned; "+
 		"(R7) every name list parseSANExtension fills takes part in the 'parsed nothing' test of a critical subjectAltName; "+
 		"(R8) in every parser function the fork shares by name and shape with the crypto/x509 of the toolchain (parseNameConstraintsExtension, parseSANExtension, the key parsers, the name helpers), every non-error result, every field written through a pointer parameter and every field of a returned object depends — by data flow through values, memory cells and per-call-site summaries of closures and package functions, and by the conditions that select between definitions — on every input part (parameter, call into another package identified by callee, constant arguments and written argument) the standard library computes it from: the 'unhandled' verdict of a name-constraints extension on the permitted and on the excluded subtrees, each Permitted…/Excluded… list on its own subtree, each SAN list on the extension bytes. "+
+		"(R9) every store the certificate parser makes into a field of a flag-set type (an integer type of package x509 whose declared constants are all single bits: KeyUsage) holds a value whose interval over all executions contains every declared constant: a flag set decoded from one octet cannot report decipherOnly (bit 8). "+
 		"NOT covered: totality (absence of panics, termination) of the parsers; agreement of field values with crypto/x509 on well-formed certificates beyond (R6)-(R8) — R8 establishes which inputs a value depends on, not the function computed from them (an inverted flag or a wrong constant passes), and does not compare functions the fork implements over other decoders than the library (parseCertificate and its extension switch, parsePublicKey, the CSR parser); that a well-formed certificate parses with no error at all; that the ASN.1 decoder's RawContent/FullBytes are sub-slices of its input (C10.R4); nil entries inside a returned certificate slice; which of several fatal errors a concatenation reports and the order of the entries of its NonFatalErrors; R4's structure states are joined over all paths (a reset skipped only on rounds after which parseCertificate can no longer run is reported although harmless) and its marks are nil-able loop-carried values (a boolean 'failed' flag is undecided, i.e. reported).",
 		runC11)
 }
@@ -174,6 +175,9 @@ func runC11(r *Run) {
 
 	r.Rule("C11.R8")
 	c11StdDeps(r)
+
+	r.Rule("C11.R9")
+	c11FlagWidth(r)
 }
 
 // ---- IsFatal decision table ---------------------------------------------------------
